@@ -51,10 +51,16 @@ pub struct BrokerIo {
     /// frames sent to the client (in order)
     pub sent: Vec<AMQPFrame>,
     pub start: Instant,
+    /// set once Connection.Close has been sent: from then on a compliant server discards every
+    /// method except Close / Close-Ok, so responders are no longer called
+    pub closing: bool,
 }
 
 impl BrokerIo {
     pub fn send(&mut self, f: AMQPFrame) {
+        if let AMQPFrame::Method(0, AMQPClass::Connection(Conn::Close(_))) = &f {
+            self.closing = true;
+        }
         self.wire.push(encode(&f));
         self.sent.push(f);
     }
@@ -62,6 +68,9 @@ impl BrokerIo {
     pub fn send_glued(&mut self, fs: Vec<AMQPFrame>) {
         let mut bytes = Vec::new();
         for f in &fs {
+            if let AMQPFrame::Method(0, AMQPClass::Connection(Conn::Close(_))) = f {
+                self.closing = true;
+            }
             bytes.extend_from_slice(&encode(f));
         }
         self.wire.push(bytes);
@@ -173,6 +182,7 @@ pub fn spawn_broker<R: Responder>(wire: Wire, cfg: ServerCfg, r: R) -> BrokerHan
                 seen: Vec::new(),
                 sent: Vec::new(),
                 start: Instant::now(),
+                closing: false,
             };
             let mut dec = StreamDecoder::new();
             // 0 = waiting header, 1 = sent Start, 2 = sent Tune, 3 = waiting Open, 4 = steady
@@ -264,7 +274,11 @@ pub fn spawn_broker<R: Responder>(wire: Wire, cfg: ServerCfg, r: R) -> BrokerHan
                                     ctl2.lock().unwrap().handshake_done = true;
                                 }
                             }
-                            _ => r.on_frame(&mut io, &f),
+                            _ => {
+                                if !io.closing {
+                                    r.on_frame(&mut io, &f)
+                                }
+                            }
                         }
                     }
                 }
